@@ -25,7 +25,7 @@ impl Concretise {
         match self.key_alpha {
             1 => {
                 let mut v = vec![b'p'; 200];
-                v.extend_from_slice(format!("{k:03}").as_bytes());
+                v.extend_from_slice(format!("{k:05}").as_bytes());
                 v
             }
             2 => {
@@ -40,7 +40,7 @@ impl Concretise {
                 v.extend(std::iter::repeat(b'!').take(extra));
                 v
             }
-            _ => format!("k{k:03}").into_bytes(),
+            _ => format!("k{k:05}").into_bytes(),
         }
     }
 
